@@ -1172,6 +1172,9 @@ result_t ChainedMessage::prepareMasterPart(size_t index, char separator, istring
   if (result != RESULT_OK) {
     return result;
   }
+  if (!allData.adjustHeader()) {  // set NN to the number of data bytes written for getDataSize() below
+    return RESULT_ERR_INVALID_POS;
+  }
   size_t pos = 0, addData = 0;
   if (m_isWrite) {
     addData = m_lengths[0];
